@@ -41,6 +41,7 @@ type Case struct {
 	MaxQueue int   `json:"maxQueue"` // defs.BufferMaxNumChunksInQueue
 	MaxBytes int64 `json:"maxBytes"` // maxBufSize
 	BadDir   bool  `json:"badDir"`   // the queue directory is unusable (a regular file is in its place)
+	BadKind  int   `json:"badKind,omitempty"` // 1: a regular file is in the place of the PARENT of the root: the directory can be neither created nor opened
 	Ops      []Op  `json:"ops"`
 }
 
@@ -159,14 +160,21 @@ func runCase(c Case) vh.Result {
 		panic(err)
 	}
 	defer os.RemoveAll(root)
+	cfgRoot := root
+	if c.BadDir && c.BadKind == 1 {
+		if err := os.WriteFile(filepath.Join(root, "blocker"), []byte("not a directory"), 0o644); err != nil {
+			panic(err)
+		}
+		cfgRoot = filepath.Join(root, "blocker", "q")
+	}
 	cfg := &hybridbuffer.Config{}
-	if err := util.UnmarshalYamlString(fmt.Sprintf("type: hybridBuffer\nrootPath: %s\nmaxBufSize: %dB\n", root, c.MaxBytes), cfg); err != nil {
+	if err := util.UnmarshalYamlString(fmt.Sprintf("type: hybridBuffer\nrootPath: %s\nmaxBufSize: %dB\n", cfgRoot, c.MaxBytes), cfg); err != nil {
 		panic(err)
 	}
 	match := func(id string) bool { return strings.HasSuffix(id, ".ff") }
 	const bufferID = "key1,key2"
 	var qdir string
-	if c.BadDir {
+	if c.BadDir && c.BadKind == 0 {
 		// occupy the place of the queue directory with a regular file: find the name by creating it once
 		probe := cfg.NewBufferer(logger.Root(), bufferID, match, promreg.NewMetricFactory("probe_", nil, nil), false)
 		probe.Start()
@@ -372,7 +380,7 @@ func runCase(c Case) vh.Result {
 				if armed {
 					pers := metric(g.mf, "input_chunks_total", "state=persistent") - persBefore
 					drop := metric(g.mf, "dropped_chunks_total") - dropBefore
-					if pers+drop < 1 && !c.BadDir {
+					if pers+drop < 1 {
 						res.Violation = vh.Fail("buffer:memory-bound", "op %d: with the consumer stalled and >= %d chunks waiting in the in-memory window, an accepted chunk was neither unloaded to disk nor dropped (persistent +%v, dropped +%v)", oi, c.MaxMem/2, pers, drop)
 						return res
 					}
@@ -403,8 +411,12 @@ func runCase(c Case) vh.Result {
 				g.cons.mu.Lock()
 				held := float64(len(g.cons.held))
 				g.cons.mu.Unlock()
+				if os.Getenv("VERIF_DEBUG") != "" {
+					fmt.Printf("arm: pending=%v queued=%v held=%v\n", pending, queued, held)
+				}
 				if pending-queued-1-held >= float64((c.MaxMem+1)/2) {
 					armed = true
+					res.Classes = append(res.Classes, "armed(window-provably-half-full)")
 					break
 				}
 				if pending-held < float64((c.MaxMem+1)/2)+1 {
@@ -446,6 +458,9 @@ func runCase(c Case) vh.Result {
 	if droppedTotal > 0 {
 		res.Classes = append(res.Classes, "dropped-chunks")
 	}
+	if c.BadDir && c.BadKind == 1 {
+		res.Classes = append(res.Classes, "directory-cannot-be-opened")
+	}
 	if c.BadDir {
 		res.Classes = append(res.Classes, "unusable-directory")
 	}
@@ -472,7 +487,10 @@ func genCase(t *rapid.T) Case {
 	if c.MaxBytes < 1 {
 		c.MaxBytes = 1
 	}
-	c.BadDir = rapid.IntRange(0, 9).Draw(t, "badDir") == 0
+	c.BadDir = rapid.IntRange(0, 7).Draw(t, "badDir") == 0
+	if c.BadDir {
+		c.BadKind = rapid.IntRange(0, 1).Draw(t, "badKind")
+	}
 	n := rapid.IntRange(1, 25).Draw(t, "nops")
 	for i := 0; i < n; i++ {
 		k := rapid.SampledFrom([]string{"accept", "accept", "accept", "accept", "confirm", "confirm", "hold", "arm", "restart", "stopConsumer"}).Draw(t, "op")
